@@ -51,6 +51,12 @@ reg('C20', 'exhaustive fault-script enumeration against an in-process HTTP mock 
     'safety predicate "normal return with an available checksum implies matching MD5".',
     TRUST + ' responses as HTTP mock.', category='fault_enumeration')
 
+reg('C18', 'Hypothesis recursive value generators with save/load round-trip oracle',
+    'Generated dictionaries (recursive values incl. every numeric ndarray dtype, byte order, rank '
+    'and memory layout), TSV/CSV row lists, two-column tables and parameter dictionaries are saved '
+    'and loaded back; the result is compared type-exactly (NaN-aware, float cells to the written '
+    'precision) with the value that was saved.', TRUST + ' Python json/csv.')
+
 
 def main():
     props = [json.loads(l) for l in (HERE / 'properties.jsonl').read_text().splitlines() if l.strip()]
